@@ -353,6 +353,16 @@ func (f *Func) reachTarget(
 				skip = true
 				argMap[graph.VertexID(out)] = v.Value
 			}
+
+		case *valueVertex:
+			// A named value that was given directly (or was already
+			// computed) is used as is: no path can be better than the
+			// exact match, and the matching-name discount below must not
+			// make a conversion look cheaper than it.
+			if v.Value.IsValid() {
+				skip = true
+				argMap[graph.VertexID(out)] = v.Value
+			}
 		}
 
 		// If we're skipping because we have this value already, then
